@@ -22,6 +22,9 @@ pub struct Config {
     pub write_buf: usize,
     /// a graceful-shutdown signal is configured (fired by the environment)
     pub signal: bool,
+    /// an upgrade service is configured (added to the builder AFTER the other settings); it
+    /// answers `101` with the tag of the request and ends
+    pub upgrade: bool,
 }
 
 impl Default for Config {
@@ -33,6 +36,7 @@ impl Default for Config {
             half_closed: true,
             write_buf: 32_768,
             signal: false,
+            upgrade: false,
         }
     }
 }
